@@ -7,9 +7,11 @@ ids = [json.loads(l)["id"] for l in open(os.path.join(HERE, "properties.jsonl"))
 claimed = sorted(f[:-3] for f in os.listdir(os.path.join(HERE, "props")) if f.startswith("C") and f.endswith(".py"))
 na = json.load(open(os.path.join(HERE, "props", "not_applicable.json")))
 checks = []
+pending = {}
 for pid in claimed:
     m = importlib.import_module("props." + pid)
     if getattr(m, "PENDING", False):
+        pending[pid] = m.PENDING if isinstance(m.PENDING, str) else "built, but its check is being reworked and is not claimed until it passes again"
         continue
     meta = m.MANIFEST
     checks.append({
@@ -30,7 +32,7 @@ def hook_commits():
 
 
 claimed = [c["property_id"] for c in checks]
-not_app = [{"property_id": pid, "reason": na[pid]} for pid in ids if pid not in claimed]
+not_app = [{"property_id": pid, "reason": pending.get(pid, na[pid])} for pid in ids if pid not in claimed]
 for x in not_app:
     assert x["reason"]
 man = {
